@@ -181,6 +181,29 @@ def run(ctx):
                         ctx.mismatch('C03:from-python:%s:%s' % (kind, 'raises' if isinstance(got_keys, str) else 'order'),
                                      '%s of key type %s built by from_python_object from %s: keys come out as %s, the Tezos order gives %s' % (kind, t, order, got_keys, want_j),
                                      {'family': 'pyobj', 'kind': kind, 'type': t, 'a': a, 'b': b_, 'cmp': cmpv})
+    # collections of 40 keys built from Python objects handed over in a scrambled order (implementations may switch to another sorting path for large literals)
+    import random
+    rng = random.Random(ctx.seed + 3)
+    big = {ADDR: [addr(k, f) for k in (0, 1, 2, 3, 4, 6) for f in (1, 9, 77, 130, 200, 250, 255)][:40],
+           STR: [s(x) for x in sorted({'%s%s' % (a, b_) for a in 'aBz0_' for b_ in ('', 'a', 'B', 'zz', '0', '~', ' ', 'aa')})][:40],
+           INT: [i(x) for x in range(-20, 20)]}
+    for t, vals in big.items():
+        want_vals = sorted(vals, key=lambda v: v[1] if t != ADDR else v[1])       # model order: integers by value, strings and addresses by their bytes
+        if t == STR:
+            want_vals = sorted(vals, key=lambda v: bytes(v[1]))
+        want_j = [vmreplay.make_item(t, k).to_micheline_value(mode='readable') for k in want_vals]
+        for kind, ct in (('set', SET(t)), ('map', MAP(t, UNIT))):
+            order = list(vals)
+            rng.shuffle(order)
+            got_keys = from_python_order(t, ct, order, kind)
+            if got_keys is None:
+                continue
+            npy += 1
+            ctx.count(('pyobj-large', kind, t), nontrivial=True)
+            if got_keys != want_j:
+                ctx.mismatch('C03:from-python:%s:%s:40-keys' % (kind, 'raises' if isinstance(got_keys, str) else 'order'),
+                             '%s of 40 keys of type %s built by from_python_object: keys come out as %s..., the Tezos order gives %s...' % (kind, t, str(got_keys)[:300], str(want_j)[:300]),
+                             {'family': 'pyobj-large', 'kind': kind, 'type': t})
     ctx.replayed += nlit + npy + nann
     ctx.extra['comparisons_with_an_annotated_operand'] = nann
     ctx.extra['collections_built_from_python_objects'] = npy
